@@ -4,3 +4,4 @@ import MW.Props.C11
 #print axioms MW.Props.C11.reward_refused_no_lst
 #print axioms MW.Props.C11.reward_refused_fee_exceeds
 #print axioms MW.Props.C11.fee_withdraw
+#print axioms MW.Props.C11.C11_split_world
